@@ -126,7 +126,8 @@ fn constructor(rep: &mut Report, r: &mut Rng, n: u64) {
     const P: u64 = 1;
     const W: u64 = 2;
     // a tiny simulated memory: root + one other frame
-    let root_phys = (r.next() & 0x000f_ffff_ffff_f000).max(0x1000);
+    // (physical frame 0 is a frame like any other)
+    let root_phys = if r.chance(1, 3) { 0 } else { (r.next() & 0x000f_ffff_ffff_f000).max(0x1000) };
     let other_phys = root_phys ^ 0x1000;
     let arena = Arena::new_memfd(vec![root_phys, other_phys, other_phys ^ 0x2000], 0, r.next());
     let scratch = arena.st().n();
